@@ -23,7 +23,11 @@ FUNCTIONS = ['dassh.region_rodded:RoddedRegion.calculate_pressure_drop',
              'dassh.assembly:Assembly.pressure_drop', 'dassh.assembly:Assembly.update_region (accumulation)']
 ASSUMPTIONS = ['friction factor, velocity and density are the static values the region holds (positive atoms); that they '
                'are evaluated once at the bundle-average temperature is the documented design (constant within a sweep)',
-               'step-size independence follows from additivity in dz (proved) and sum(dz) = L (C05)']
+               'step-size independence follows from additivity in dz (proved) and sum(dz) = L (C05)',
+               'spacer grids: axial planes lie on the 1e-12 m raster (C05 mesh contract); the position a region is handed '
+               'is accumulated in floating point and is assumed to be within a quarter raster unit (2.5e-13 m) of its '
+               'plane, the step within a quarter unit of the plane difference (observed drift: 1.8e-14 m over 715 steps); '
+               'numpy.around(x, 12) = nearest raster point, ties unspecified']
 NOT_DECIDED = ['text tables that print the pressure drop (formatting)']
 BOUNDED = ['runtime.gravity_head[*]: generated assemblies (pin bundle + single-node + six-node regions, double duct) with '
            'include_gravity_head_loss on / off: the gravity part of the reported pressure drop is rho g L (constant density)',
@@ -74,40 +78,79 @@ def rodded(S, cfg):
 rodded.cname = 'RoddedRegion.calculate_pressure_drop'
 
 
+GRID = 10 ** 12         # axial planes lie on the 1e-12 m raster (Reactor._setup_zpts rounds them; C05 proves it)
+DRIFT = 0.25            # raster units: bound on the floating-point drift of the accumulated position handed to a region
+
+
+def _units(S, k):
+    """k raster units as a length"""
+    from pvc import core
+    return k * core.Sym(core.C(1)) / GRID if S.mode == 'sym' else k / GRID
+
+
+def _on_raster(S, x):
+    """a position read on the raster, as numpy.around(x, 12) does (symbolically: K / 1e12 with the integer atom K,
+    |x 1e12 - K| <= 1/2 - the very atom the code under contract gets for the same argument)"""
+    return round(x, 12) if S.mode == 'sym' else np.around(x, 12)
+
+
+def _planes(S, first_on=None):
+    """three consecutive planes za < zb < zc on the raster, and what a region is handed for the two steps between them:
+    the upper plane with the drift of a position accumulated step by step, and the step with its rounding error"""
+    ia = S.int('ia', 0, 3 * 10 ** 11)
+    n1 = S.int('n1', 1, 2 * 10 ** 11)
+    n2 = S.int('n2', 1, 2 * 10 ** 11)
+    S.assume(ia >= 0, 'planes start at the core inlet')
+    S.assume(n1 >= 1, 'steps are at least one raster unit (C05: strict progress on the raster)')
+    S.assume(n2 >= 1, 'steps are at least one raster unit')
+    za, zb, zc = _units(S, ia), _units(S, ia + n1), _units(S, ia + n1 + n2)
+    e = []
+    for i in range(4):
+        d = S.real(f'drift{i}', -DRIFT, DRIFT)
+        S.assume(d <= DRIFT, 'floating-point drift below a quarter raster unit')
+        S.assume(d >= -DRIFT, 'floating-point drift below a quarter raster unit')
+        e.append(_units(S, d))
+    return (ia, n1, n2), (za, zb, zc), ((zb + e[0], zb - za + e[1]), (zc + e[2], zc - zb + e[3]))
+
+
 def grid(S, cfg):
-    """two consecutive axial steps (za, zb], (zb, zc] and a grid position g with
-    za < g <= zc: the grid loss is added in exactly one of the two steps"""
+    """two consecutive axial steps (za, zb], (zb, zc] between planes on the 1e-12 m raster, handed down with bounded
+    drift, and a grid whose position read on the raster lies in (za, zc]: the grid loss is added in exactly one of the
+    two steps"""
     rr = make_rodded(S, n_ring=2, n_duct=1)
     set_int_params(S, rr)
     K = S.pos('K', 0.5, 2.0)
     vel = S.pos('vel', 1.0, 8.0)
     rr.coolant_int_params['grid_loss_coeff'] = K
     rr.coolant_int_params['vel'] = vel
-    za = S.nonneg('za', 0.0, 0.3)
-    d1 = S.pos('d1', 0.01, 0.2)
-    d2 = S.pos('d2', 0.01, 0.2)
-    zb = za + d1
-    zc = zb + d2
+    (ia, n1, n2), (za, zb, zc), (step1, step2) = _planes(S)
+    if hasattr(rr, 'z'):
+        del rr.z
     where = cfg['where']
     if where == 'on_plane':
         g = zb
-    elif where == 'first':
-        a = S.pos('ga', 0.1, 5.0)
-        g = za + d1 * a / (1 + a)            # strictly inside the first step
-    elif where == 'second':
-        a = S.pos('ga', 0.1, 5.0)
-        g = zb + d2 * a / (1 + a)
-    else:                                     # anywhere in (za, zc]
+    elif where == 'near_plane':
+        off = S.real('g_off', -0.4, 0.4)                   # input noise (unit conversion) around the plane
+        S.assume(off <= 0.4, 'grid within 0.4 raster units of the plane')
+        S.assume(off >= -0.4, 'grid within 0.4 raster units of the plane')
+        g = zb + _units(S, off)
+    else:
         g = S.pos('g', 0.0, 0.7)
-        S.assume(g > za, 'g > za')
-        S.assume(g <= zc, 'g <= zc')
-    other = zc + S.pos('far', 0.5, 1.0)       # a second grid well above both steps
+        rg = _on_raster(S, g)
+        lo, hi = dict(first=(za, zb), second=(zb, zc), any=(za, zc))[where]
+        S.assume(rg > lo, 'grid above the lower plane')
+        S.assume(rg <= hi, 'grid not above the upper plane')
+    far = S.pos('far', 0.5, 1.0)
+    S.assume(far >= 1e-3, 'a second grid well above both steps')
+    other = zc + far
     rr.corr_constants['grid'] = {'z': [g, other], 'n': 2}
     loss = K * rr.coolant.density * vel * vel / 2
-    r1 = rr.calculate_spacergrid_pressure_drop(zb, zb - za)
-    r2 = rr.calculate_spacergrid_pressure_drop(zc, zc - zb)
+    r1 = rr.calculate_spacergrid_pressure_drop(*step1)
+    r2 = rr.calculate_spacergrid_pressure_drop(*step2)
     S.eq('grid.exactly_once', r1 + r2, loss)
     S.le('grid.nonneg', 0, r1)
+    if where in ('on_plane', 'near_plane', 'first'):
+        S.eq('grid.in_the_step_that_ends_on_or_above_it', r1, loss)
     S.eq('canary.grid_counted_twice', r1 + r2, 2 * loss, canary=True)
 grid.cname = 'RoddedRegion.calculate_spacergrid_pressure_drop'
 grid.run_kw = dict(pool_size=10)
@@ -181,10 +224,11 @@ assembly.cname = 'Assembly.update_region'
 
 
 def grids(S, cfg):
-    """two grids anywhere in the bundle, listed in either order, and two consecutive steps (za, zb], (zb, zc] through the
-    real calculate_pressure_drop: the spacer-grid part grows by one loss for every grid in (za, zc] - also when both lie
-    in the same step or at the same position - and, when za is the lower bound of the bundle (first step), for a grid
-    exactly on that bound (the reader keeps positions z_lo <= g <= z_hi)."""
+    """two grids anywhere in the bundle, listed in either order, and two consecutive steps (za, zb], (zb, zc] between
+    planes on the raster (handed down with drift) through the real calculate_pressure_drop: the spacer-grid part grows
+    by one loss for every grid whose raster position lies in (za, zc] - also when both lie in the same step or at the
+    same position - and, when za is the lower bound of the bundle (first step), for a grid on that bound; when zc is
+    the upper bound of the bundle (last step) a grid on it is charged (the reader keeps z_lo <= g <= z_hi)."""
     rr = make_rodded(S, n_ring=2, n_duct=1)
     set_int_params(S, rr)
     K = S.pos('K', 0.5, 2.0)
@@ -193,36 +237,41 @@ def grids(S, cfg):
     rr.coolant_int_params['vel'] = vel
     rr.coolant_int_params['ff'] = S.pos('ff', 0.01, 0.05)
     rr._gravity = False
-    z_lo = S.nonneg('z_lo', 0.0, 0.3)
-    rr.z = [z_lo, z_lo + S.pos('L_bundle', 1.0, 2.0)]
-    first = cfg['first']
+    (ia, n1, n2), (za, zb, zc), (step1, step2) = _planes(S)
+    first, last = cfg['first'], cfg.get('last', False)
     if first:
-        za = z_lo
+        z_lo = za
     else:
-        below = S.pos('below', 0.05, 0.3)
-        # planes lie on the 1e-12 m grid (C05): a step's lower edge is the bundle's lower bound or lies at least one
-        # grid unit above it; the code tells the two apart with a tolerance of half a unit
-        S.assume(below >= 1e-12, 'a later step starts at least one grid unit (1e-12 m) above the bundle bound')
-        za = z_lo + below
-    d1 = S.pos('d1', 0.002, 0.01)
-    d2 = S.pos('d2', 0.002, 0.01)
-    S.assume(d1 >= 1e-12, 'steps are at least one grid unit (C05: strict progress on the 1e-12 m grid)')
-    S.assume(d2 >= 1e-12, 'steps are at least one grid unit')
-    zb = za + d1
-    zc = zb + d2
-    g = [z_lo + S.nonneg(f'g{i}', 0.0, 0.7) for i in range(2)]     # in the bundle (the reader's guarantee)
+        # a later step starts at least one raster unit above the bundle bound
+        below = S.int('below', 1, 3 * 10 ** 11)
+        S.assume(below >= 1, 'a later step starts at least one raster unit above the bundle bound')
+        z_lo = za - _units(S, below)
+    if last:
+        z_hi = zc
+    else:
+        above = S.int('above', 1, 10 ** 12)
+        S.assume(above >= 1, 'an earlier step ends at least one raster unit below the bundle bound')
+        z_hi = zc + _units(S, above)
+    rr.z = [z_lo, z_hi]
+    # in the bundle (the reader's guarantee), anywhere - not only on the raster
+    g = [z_lo + S.nonneg(f'g{i}', 0.0, 0.7) for i in range(2)]
+    for gi in g:
+        S.assume(gi <= z_hi, 'the reader keeps grids with z_lo <= g <= z_hi')
     if cfg.get('same'):
         g[1] = g[0]
     rr.corr_constants['grid'] = {'z': list(g), 'n': 2}
     loss = K * rr.coolant.density * vel * vel / 2
     rr._pressure_drop = {'friction': 0 * loss, 'spacer_grid': 0 * loss, 'gravity': 0 * loss}
-    rr.calculate_pressure_drop(zb, d1)
-    rr.calculate_pressure_drop(zc, d2)
+    rr.calculate_pressure_drop(*step1)
+    rr.calculate_pressure_drop(*step2)
     count = 0
     for gi in g:
-        if gi <= zc and (gi > za or (first and gi <= za)):
+        rg = _on_raster(S, gi)
+        if rg <= zc and (rg > za or (first and rg <= za)):
             count += 1
     S.eq('grids.each_charged_once', rr._pressure_drop['spacer_grid'], count * loss)
+    if first and last:
+        S.eq('grids.all_charged_over_the_whole_bundle', rr._pressure_drop['spacer_grid'], 2 * loss)
     S.eq('canary.grids_charged_per_step', rr._pressure_drop['spacer_grid'], (1 if count else 0) * loss, canary=True)
 
 
@@ -233,8 +282,9 @@ grids.run_kw = dict(pool_size=12, max_paths=400, check_div=False)
 def configs(tier):
     out = [(rodded, dict(gravity=True)), (rodded, dict(gravity=False)),
            (grid, dict(where='first')), (grid, dict(where='second')), (grid, dict(where='on_plane')),
-           (grid, dict(where='any')),
+           (grid, dict(where='any')), (grid, dict(where='near_plane')),
            (grids, dict(first=True)), (grids, dict(first=False)), (grids, dict(first=True, same=True)),
+           (grids, dict(first=False, last=True)), (grids, dict(first=True, last=True)),
            (unrodded, dict(model='simple')), (unrodded, dict(model='6node')),
            (unrodded, dict(model='simple', gravity=False)), (unrodded, dict(model='6node', gravity=False)),
            (assembly, dict())]
@@ -299,6 +349,12 @@ GRIDS = {
     'on_bundle_lower_bound': dict(grid=[0.3, 0.5], unrodded=_UR),
     'on_bundle_upper_bound': dict(grid=[0.8, 0.5], unrodded=_UR),
     'outside_bundle_skipped': dict(grid=[0.1, 0.5, 0.9], unrodded=_UR, _expect=1),
+    # step sizes for which the accumulated position of the last bundle step falls just below the plane
+    'on_bundle_upper_bound_dz_1.3mm': dict(grid=[0.8, 0.5], unrodded=_UR, _dz=0.0013),
+    'on_bundle_upper_bound_dz_2.3mm': dict(grid=[0.8, 0.3], unrodded=_UR, _dz=0.0023),
+    # a grid one ulp above an accumulated position (0.49 + ...): charged once, not in two steps
+    'one_ulp_above_a_plane': dict(grid=[0.49000000000000027], _dz=0.01),
+    'one_ulp_above_a_plane_dz_3mm': dict(grid=[0.4980000000000004, 0.8], unrodded=_UR, _dz=0.003),
 }
 
 
@@ -312,7 +368,8 @@ def _grid_case(name):
     wd = tempfile.mkdtemp(prefix='c14g_')
     try:
         kw = {k: v for k, v in GRIDS[name].items() if not k.startswith('_')}
-        inp, r = Gn.build(Gn.write_problem(wd, gap_model='none', asms={'a1': kw}), sweep=True)
+        extra = f"    axial_mesh_size = {GRIDS[name]['_dz']}\n" if '_dz' in GRIDS[name] else ''
+        inp, r = Gn.build(Gn.write_problem(wd, gap_model='none', asms={'a1': kw}, setup_extra=extra), sweep=True)
         rr = r.assemblies[0].rodded
         one = 1.2 * rr.coolant.density * rr.coolant_int_params['vel'] ** 2 / 2      # constant properties, loss_coeff 1.2
         got = float(rr._pressure_drop['spacer_grid'])
